@@ -1,7 +1,7 @@
 (** C09 - spline quadrature weights integrate the interpolant (get_quadrature_coefficients of
     spline_interpolators.py, BSplines._build_integrals of splines.py).
-    Only statements, [exact]s and [Print Assumptions]; proofs in InterpTheory.v (model: InterpModel.v; seed:
-    Sums.weights_dual) and InterpQc.v (Qc instance, witnesses).  Every theorem holds for every field with a
+    Only statements, [exact]s and [Print Assumptions]; proofs in InterpTheory.v, QuadTheory.v, GrevilleTheory.v, QuadSumTheory.v, CirculantTheory.v (model: InterpModel.v; seeds:
+    Sums.weights_dual, CoxDeBoorGen.basis_eq_delta) and InterpQc.v (Qc instance, witnesses).  Every theorem holds for every field with a
     compatible decidable total order, every degree and size.
 
     Model: [ip_integrals] is _build_integrals as written (general branch: degree-raised basis on the knots
@@ -11,22 +11,21 @@
     periodic folding basis_quads[:p] += integrals[n:] = [ip_quad_rhs]); [ip_quadrature] composes them.
 
     NOT proved here (see the evidence, "uncovered_clauses"):
-    - integral_formula_clamped: that the degree-raised evaluation returns (t_{j+p+1} - t_j)/(p+1) - compared
-      exactly with that closed form on every tested clamped space instead;
     - that (t_{j+p+1} - t_j)/(p+1) IS the integral of B_j (classical identity, cited) - the harness integrates
       every basis function piecewise exactly, independently of the model;
-    - all weights equal dx on EVERY uniform periodic space: proved in certificate form
-      ([c09_weights_equal_cert]: column sums, folded integrals and inverse are checked per instance).
+    - all weights equal dx on EVERY uniform periodic space: proved for the uniform-cubic path with the checked inverse as
+      only per-instance hypothesis ([c09_weights_equal_cubic]); for uniform periodic spaces of other degrees the certificate
+      form [c09_weights_equal_cert] remains (column sums follow from [c09_cols_sum_circulant] once the rows are known to be
+      shifted copies; the folded integrals are checked per instance).
 
-    - the weights of a periodic space sum to the period for ALL spaces (needs the integral formula): checked
-      exactly on the model for every tested space; [c09_quadrature_periodic_nonuniform_ok] is the instance that
-      failed on the pinned tree (defect 6, repaired by 38b0bf4).
+    [c09_quadrature_periodic_nonuniform_ok] is the instance that failed on the pinned tree (defect 6, repaired by 38b0bf4);
+    the general statement is [c09_weights_sum_general].
 
     REFUTED by the faithful model (and by the code, defect 7 of DESIGN section 9):
     [c09_integrals_cubic_clamped_small_refuted]. *)
 From Coq Require Import List Arith Lia ZArith Bool QArith Qcanon.
 Import ListNotations.
-From PGV Require Import BasisCoxDeBoor CoxDeBoorGen FindSpan CubicUniform CollocRow Sums SplineModel SplineTheory SplineQc InterpModel InterpTheory InterpQc.
+From PGV Require Import BasisCoxDeBoor CoxDeBoorGen FindSpan CubicUniform CollocRow Sums SplineModel SplineTheory SplineQc InterpModel InterpTheory Interp2D QuadTheory GrevilleTheory QuadSumTheory CirculantTheory InterpQc.
 
 (** the weights solve the TRANSPOSED collocation system C^T w = q, q = integrals (clamped) or the folded integrals (periodic) *)
 Theorem c09_quad_from_spec :
@@ -116,6 +115,169 @@ Theorem c09_rows_sum_one_nu :
   ip_rows_sum_one F K nb A.
 Proof. exact (@ip_rows_sum_one_nu). Qed.
 Print Assumptions c09_rows_sum_one_nu.
+
+(** integral_formula_clamped: on a clamped space (knots as make_knots builds them: [ip_clamped]) the degree-raised evaluation of _build_integrals - nu_find_span / nu_basis_funs of degree p+1 on the extended knots at max(a, t_i) and min(b, t_{i+p+1}), sum(values[min_idx:]) - returns (t_{i+p+1} - t_i)/(p+1) for EVERY basis function (cumulated value 0 at the lower bound: last value of A2.2 at a knot / clamped left end values; 1 at the upper bound: partition of unity / clamped right end values) *)
+Theorem c09_integral_formula_clamped :
+  forall (F : Type) (K : sp_ops F),
+  sp_laws K ->
+  forall (knots : list F) (d i : nat),
+  ip_clamped F K knots d ->
+  (i < length knots - d - 1)%nat ->
+  ip_integral_general F K knots (ip_kx F K knots) d i =
+  SpOk
+  (spmul K (spsub K (sp_kn F K knots (i + d + 1)) (sp_kn F K knots i))
+  (spdiv K (sp1 K) (sp_ofnat F K (S d)))).
+Proof. exact (@ip_integral_clamped). Qed.
+Print Assumptions c09_integral_formula_clamped.
+
+(** hence BSplines.integrals of a clamped general space is the list of (t_{i+p+1} - t_i)/(p+1) *)
+Theorem c09_integrals_clamped :
+  forall (F : Type) (K : sp_ops F),
+  sp_laws K ->
+  forall (knots : list F) (d : nat),
+  ip_clamped F K knots d ->
+  ip_space_ok F K knots d false false = true ->
+  ip_integrals F K knots d false false =
+  SpOk
+  (map
+  (fun i : nat =>
+  spmul K (spsub K (sp_kn F K knots (i + d + 1)) (sp_kn F K knots i))
+  (spdiv K (sp1 K) (sp_ofnat F K (S d)))) (seq 0 (length knots - d - 1))).
+Proof. exact (@ip_integrals_clamped). Qed.
+Print Assumptions c09_integrals_clamped.
+
+(** which sums (telescoping) to the length b - a of the domain *)
+Theorem c09_integrals_clamped_sum :
+  forall (F : Type) (K : sp_ops F),
+  sp_laws K ->
+  forall (knots : list F) (d : nat),
+  ip_clamped F K knots d ->
+  sumn F (sp0 K) (spadd K) (length knots - d - 1)
+  (fun i : nat =>
+  spmul K (spsub K (sp_kn F K knots (i + d + 1)) (sp_kn F K knots i))
+  (spdiv K (sp1 K) (sp_ofnat F K (S d)))) =
+  spsub K (sp_kn F K knots (length knots - 1 - d)) (sp_kn F K knots d).
+Proof. exact (@ip_integrals_clamped_sum). Qed.
+Print Assumptions c09_integrals_clamped_sum.
+
+(** the quadrature weights of a clamped general space, for interpolation points in the domain, sum to the length of the domain *)
+Theorem c09_weights_sum_clamped :
+  forall (F : Type) (K : sp_ops F),
+  sp_laws K ->
+  forall (knots : list F) (d : nat) (xs w : list F),
+  ip_clamped F K knots d ->
+  ip_quadrature F K knots d false false xs = SpOk w ->
+  (forall i : nat,
+  (i < ip_nbasis F K knots d false false)%nat ->
+  sp_le K (sp_kn F K knots d) (nth i xs (sp0 K)) /\
+  sp_le K (nth i xs (sp0 K)) (sp_kn F K knots (length knots - 1 - d))) ->
+  ip_sum F K (ip_nbasis F K knots d false false) (fun i : nat => nth i w (sp0 K)) =
+  spsub K (sp_kn F K knots (length knots - 1 - d)) (sp_kn F K knots d).
+Proof. exact (@ip_weights_sum_clamped). Qed.
+Print Assumptions c09_weights_sum_clamped.
+
+(** every stored integral of the general branch (clamped or periodic, breakpoints strictly increasing: [ip_simple_breaks]) is c_i (u_i - l_i) with c_i = (t_{i+p+1} - t_i)/(p+1), l_i / u_i = the sums over k > i of the degree p+1 basis values at a / at b (windows [ip_Va], [ip_Vb]) *)
+Theorem c09_piece :
+  forall (F : Type) (K : sp_ops F),
+  sp_laws K ->
+  forall (knots : list F) (d : nat),
+  ip_simple_breaks F K knots d ->
+  forall i : nat,
+  (i < length knots - d - 1)%nat ->
+  ip_integral_general F K knots (ip_kx F K knots) d i =
+  SpOk
+  (spmul K
+  (spmul K (spsub K (sp_kn F K knots (i + d + 1)) (sp_kn F K knots i))
+  (spdiv K (sp1 K) (sp_ofnat F K (S d))))
+  (spsub K
+  (sumn F (sp0 K) (spadd K) (S (S d))
+  (fun q : nat =>
+  if (i + 2 + 2 * d + 1 - length knots <=? q)%nat then ip_Vb F K knots d q else sp0 K))
+  (sumn F (sp0 K) (spadd K) (S (S d))
+  (fun q : nat => if (S i <=? q)%nat then ip_Va F K knots d q else sp0 K)))).
+Proof. exact (@ip_piece). Qed.
+Print Assumptions c09_piece.
+
+(** summation by parts + the Greville identity of degree p+1 at both ends: the pieces sum to b - a *)
+Theorem c09_pieces_sum :
+  forall (F : Type) (K : sp_ops F),
+  sp_laws K ->
+  forall (knots : list F) (d : nat),
+  ip_simple_breaks F K knots d ->
+  sumn F (sp0 K) (spadd K) (length knots - d - 1)
+  (fun i : nat =>
+  spmul K
+  (spmul K (spsub K (sp_kn F K knots (i + d + 1)) (sp_kn F K knots i))
+  (spdiv K (sp1 K) (sp_ofnat F K (S d))))
+  (spsub K
+  (sumn F (sp0 K) (spadd K) (S (S d))
+  (fun q : nat =>
+  if (i + 2 + 2 * d + 1 - length knots <=? q)%nat then ip_Vb F K knots d q else sp0 K))
+  (sumn F (sp0 K) (spadd K) (S (S d))
+  (fun q : nat => if (S i <=? q)%nat then ip_Va F K knots d q else sp0 K)))) =
+  spsub K (sp_kn F K knots (length knots - 1 - d)) (sp_kn F K knots d).
+Proof. exact (@ip_pieces_sum). Qed.
+Print Assumptions c09_pieces_sum.
+
+(** BSplines.integrals of EVERY general space - clamped or periodic (repaired code: all ncells + p pieces), uniform or not - has ncells + p entries that sum to the length of the domain *)
+Theorem c09_integrals_general_sum :
+  forall (F : Type) (K : sp_ops F),
+  sp_laws K ->
+  forall (knots : list F) (d : nat) (periodic : bool) (Il : list F),
+  ip_simple_breaks F K knots d ->
+  ip_integrals F K knots d periodic false = SpOk Il ->
+  length Il = (length knots - d - 1)%nat /\
+  sumn F (sp0 K) (spadd K) (length knots - d - 1) (fun j : nat => nth j Il (sp0 K)) =
+  spsub K (sp_kn F K knots (length knots - 1 - d)) (sp_kn F K knots d).
+Proof. exact (@ip_integrals_general_sum). Qed.
+Print Assumptions c09_integrals_general_sum.
+
+(** GENERAL: the quadrature weights of every general space, clamped or periodic, for interpolation points in the domain, sum to the length of the domain (= the period) *)
+Theorem c09_weights_sum_general :
+  forall (F : Type) (K : sp_ops F),
+  sp_laws K ->
+  forall (knots : list F) (d : nat) (periodic : bool) (xs w : list F),
+  ip_simple_breaks F K knots d ->
+  ip_quadrature F K knots d periodic false xs = SpOk w ->
+  (forall i : nat,
+  (i < ip_nbasis F K knots d periodic false)%nat ->
+  sp_le K (sp_kn F K knots d) (nth i xs (sp0 K)) /\
+  sp_le K (nth i xs (sp0 K)) (sp_kn F K knots (length knots - 1 - d))) ->
+  ip_sum F K (ip_nbasis F K knots d periodic false) (fun i : nat => nth i w (sp0 K)) =
+  spsub K (sp_kn F K knots (length knots - 1 - d)) (sp_kn F K knots d).
+Proof. exact (@ip_weights_sum_general). Qed.
+Print Assumptions c09_weights_sum_general.
+
+(** a collocation matrix whose rows are shifted copies of the same basis vector (uniform periodic space) has columns that sum to the sum of the basis values *)
+Theorem c09_cols_sum_circulant :
+  forall (F : Type) (K : sp_ops F),
+  sp_laws K ->
+  forall (n d sigma : nat) (b : list F) (A : list (list F)),
+  (1 <= n)%nat ->
+  (d <= sigma)%nat ->
+  (forall i : nat, (i < n)%nat -> nth i A [] = ip_row_of F K n d (i + sigma) true b) ->
+  forall k : nat,
+  (k < n)%nat ->
+  ip_sum F K n (fun i : nat => ip_mget F K A i k) =
+  sumn F (sp0 K) (spadd K) (S d) (fun j : nat => nth j b (sp0 K)).
+Proof. exact (@ip_cols_sum_circulant). Qed.
+Print Assumptions c09_cols_sum_circulant.
+
+(** uniform_periodic_equal on the uniform-cubic path: knots (xmin, xmax, dx, n), points x_i = xmin + i dx, int() = floor on non-negative numbers ([sp_trunc_ok], proved for the Qc instance in AdvQc.advq_trunc_ok): every weight is dx, the only per-instance hypothesis being the checked inverse *)
+Theorem c09_weights_equal_cubic :
+  forall (F : Type) (K : sp_ops F),
+  sp_laws K ->
+  forall (xmin xmax dx fn : F) (n : nat) (xs w : list F) (A Ainv : list (list F)),
+  let knots := [xmin; xmax; dx; fn] in
+  sp_trunc_ok F K ->
+  dx <> sp0 K ->
+  sptrunc K fn = Z.of_nat n ->
+  xs = map (fun i : nat => spadd K xmin (spmul K (sp_ofnat F K i) dx)) (seq 0 n) ->
+  ip_quadrature F K knots 3 true true xs = SpOk w ->
+  ip_colloc F K n knots 3 true true xs = SpOk A ->
+  ip_inverse_ok F K n A Ainv = true -> forall i : nat, (i < n)%nat -> nth i w (sp0 K) = dx.
+Proof. exact (@ip_weights_equal_cubic). Qed.
+Print Assumptions c09_weights_equal_cubic.
 
 (** uniform periodic spaces, certificate form: columns of C sum to one, folded integrals all dx, checked inverse  ==>  every weight is dx *)
 Theorem c09_weights_equal_cert :
